@@ -871,7 +871,7 @@ func (p *partition) becomeLeader(epoch uint64) error {
 	p.srv.startGoroutineWithArgsWG(func(args ...interface{}) {
 		stop := args[0].(chan struct{})
 		p.messageProcessingLoop(recvChan, stop, epoch)
-	}, p.shutdown, p.stopLeader)
+	}, &p.shutdown, p.stopLeader)
 
 	// Start replicating to followers.
 	p.startReplicating(epoch, p.stopLeader)
@@ -1418,7 +1418,7 @@ func (p *partition) startReplicating(epoch uint64, stop chan struct{}) {
 	p.commitQueue = queue.New(100)
 	p.srv.startGoroutineWG(func() {
 		p.commitLoop(stop)
-	}, p.shutdown)
+	}, &p.shutdown)
 
 	p.replicators = make(map[string]*replicator, len(p.replicas)-1)
 	for replica := range p.replicas {
@@ -1430,7 +1430,7 @@ func (p *partition) startReplicating(epoch uint64, stop chan struct{}) {
 		p.replicators[replica] = r
 		p.srv.api.startGoroutineWithArgsWG(func(args ...interface{}) {
 			args[0].(*replicator).start(stop)
-		}, p.shutdown, r)
+		}, &p.shutdown, r)
 	}
 }
 
